@@ -674,6 +674,8 @@ def _check(case, ctx, work):
                         fail('C43:comment:added', f'unexpected comments {ac[j1:j2]}')
 
     # 3. behaviour
+    if os.environ.get('LOKIVERIF_C43_TEXT_ONLY'):     # development aid: triage of the text oracles on a loaded box
+        return
     before = build_and_run(work, 'before', text, lintgen.render_driver(model, case['inputs'], False, case['extra']))
     if before[0] != 'ok':
         raise RuntimeError(f'generator produced a program that fails before the fix ({before[0]}): {before[1][:800]}\n{text}')
